@@ -40,14 +40,20 @@ CLAIMED = {
    "contents, match, literal decoding, strtotime) only by the bounded stand-in against an independent reference evaluator.",
    TB + BS, TECHB),
  "C05": ("other",
-   "Deductive (all type trees): types.Equals/equals/equalsObj/equalsTuple/equalsFun == tyEq (the equality every typeAssert uses); "
-   "types.Obj fails exactly on a duplicate field name and builds a consistent name->index map; the pieces overload instantiation is "
-   "made of - unify binds a variable only to a type that does not contain it and never to two different types, applySubst / "
-   "unifyComposite return well-formed types, freeFrom == !occurs, slotFree == 'contains no type variable' (the test that decides "
-   "whether an instantiated signature is concrete); panic containment of types.Infer. The typing rules themselves (Check cases, "
-   "overload resolution order, inferFun) are not under contract: they are checked only by the bounded stand-in against an "
-   "independent reference checker (well- and ill-typed programs, registration orders). "
-   "Known findings F19, F23 are open.",
+   "Deductive (all syntax trees, all environments): types.Check - for every node kind the exact sequence of sub-checks and "
+   "assertions performed (every element / entry / field / argument is checked exactly once, in order, and compared with what the "
+   "rule demands: later list elements with the first, later map keys and values with the first pair, a map key primitive, a list "
+   "index with num, a map index with the key type, every argument with its parameter after the arity test), the type returned and "
+   "what is attached to the node for the back ends; typeAssert fails iff the types differ (tyEq), so a normal return means the rule "
+   "holds and an ill-typed node is never accepted; overload resolution - the exactly matching monomorphic key is looked up first "
+   "and decides when present, otherwise the polymorphic candidates are tried in registration order and the first one inferFun can "
+   "instantiate is returned and its position attached; inferFun - pseudo-signature of fresh variables, two unifications over one "
+   "substitution, rejection unless the substituted result is fully concrete (slotFree == 'no type variable'), instance built from "
+   "the unified argument tuple; OverLoaded kind; constructors List / Map / Fun / Tuple / Obj (Obj fails exactly on a duplicate "
+   "field); unify binds a variable only to a type not containing it and never to two different types; Equals family == tyEq. "
+   "ASSUMED: the types a typing environment returns are well-formed. Not deductive: the completeness direction (every well-typed "
+   "program is accepted) and the global unifier laws - bounded stand-in against an independent reference checker (well- and "
+   "ill-typed programs, registration orders). Known findings F19, F23 are open.",
    TB + BS, TECHB),
  "C06": ("other",
    "Deductive (all inputs): ghost call-sequence contracts of if / and / or (condition once, then exactly the selected thunk, nothing "
@@ -55,8 +61,12 @@ CLAIMED = {
    "JUMP / IF_TRUE semantics; VM code generation: emitCond emits exactly cond, IF_TRUE, then, JUMP, else (each arm compiled once, "
    "nothing folded away), and / or / not are emitted as the corresponding conditional, strict arguments and literal members are "
    "compiled exactly once in source order before the call / constructor instruction, lazy arguments become thunks in argument "
-   "order (emission-sequence postconditions). Strict-argument loops of the closure compiler and the interpreter and whole-program "
-   "traces: bounded stand-in (trace equality, poisoned branches).",
+   "order (emission-sequence postconditions); AST interpreter: every strict operand (list element, map key then value, object "
+   "field, subscript container then index, call argument) is evaluated exactly once in source order, a call evaluates nothing but "
+   "what resolveFun / interpArgs evaluate and then invokes the function once, lazy arguments are wrapped in order into thunks that "
+   "evaluate their expression once per force (sequence postconditions over the activation's own calls, the syntax tree proved "
+   "unchanged). Run-time closures of the closure compiler and whole-program traces: bounded stand-in (trace equality, poisoned "
+   "branches).",
    TB + BS, TECHB),
  "C07": ("other",
    "Deductive: the Callable built by (*Expr).Compile reaches the compiled closure only after envCheck has accepted the environment "
